@@ -73,6 +73,8 @@ struct SlowDrop {
 }
 impl Drop for SlowDrop {
     fn drop(&mut self) {
+        // a service instance is being destroyed: its worker is going away (death or shutdown)
+        self.log.emit(json!({"e": "ServiceDropped"}));
         if self.ms > 0 {
             self.log.emit(json!({"e": "ServiceDropStart", "thread": format!("{:?}", thread::current().id())}));
             thread::sleep(Duration::from_millis(self.ms));
@@ -285,6 +287,7 @@ pub fn run_scenario(sc: &Value, dir: &str) -> Vec<Value> {
             }
             "stop" => {
                 let g = st["graceful"].as_bool().unwrap_or(false);
+                log.emit(json!({"e": "Stopping"}));
                 let fut = handle.stop(g);
                 let ok = rt.block_on(async { tokio::time::timeout(Duration::from_secs(6), fut).await.is_ok() });
                 res["ok"] = json!(ok);
@@ -295,6 +298,7 @@ pub fn run_scenario(sc: &Value, dir: &str) -> Vec<Value> {
     }
     // wind down
     sh.release_all.store(true, Ordering::SeqCst);
+    log.emit(json!({"e": "Stopping"}));
     let fut = handle.stop(false);
     let _ = rt.block_on(async { tokio::time::timeout(Duration::from_secs(3), fut).await });
     drop(clients);
@@ -319,6 +323,9 @@ pub fn project(run: usize, sc: &Value, events: &[Value]) -> Vec<Value> {
     let mut wrong_tag = false;
     let mut factories: BTreeMap<String, u64> = BTreeMap::new();
     let mut poisoned = 0u64;
+    // service instances destroyed while the server was running (before a stop step): a worker really died
+    let mut died = 0u64;
+    let mut stopping = false;
     let mut out = vec![];
     for (k, e) in events.iter().enumerate() {
         let name = e["e"].as_str().unwrap_or("");
@@ -349,6 +356,8 @@ pub fn project(run: usize, sc: &Value, events: &[Value]) -> Vec<Value> {
             }
             "FactoryNew" => *factories.entry(e["tag"].as_str().unwrap_or("").to_string()).or_default() += 1,
             "Poisoned" => poisoned += 1,
+            "ServiceDropped" if !stopping => died += 1,
+            "Stopping" => stopping = true,
             _ => {}
         }
         let maxlive = live.values().map(|v| v.len() as u64).max().unwrap_or(0);
@@ -356,7 +365,7 @@ pub fn project(run: usize, sc: &Value, events: &[Value]) -> Vec<Value> {
             "maxLivePerWorker": maxlive, "nstarted": nstarted, "nfinished": nfinished, "dupServed": dup, "wrongService": wrong_tag,
             "stepOk": e.get("ok").and_then(|o| o.as_bool()).unwrap_or(true),
             "stepDo": e.get("do").and_then(|d| d.as_str()).unwrap_or(""),
-            "factoriesA": factories.get("a").cloned().unwrap_or(0), "poisoned": poisoned,
+            "factoriesA": factories.get("a").cloned().unwrap_or(0), "poisoned": poisoned, "died": died,
             "workers": sc["workers"].as_u64().unwrap_or(1), "raw": e}));
     }
     out
